@@ -19,3 +19,6 @@ impl MinOutputAdaCalculator {
     #[verifier::external_body] pub fn create_fake_output() -> (r: Result<TransactionOutput, JsError>)
         ensures r is Ok ==> r->Ok_0 == fake_output(), fake_output().plutus_data is None, fake_output().script_ref is None, fake_output().serialization_format is None { unimplemented!() }
 }
+/// utils.rs hash_plutus_data (unit script_hash): a function of the datum
+pub uninterp spec fn data_hash_of(d: PlutusData) -> DataHash;
+#[verifier::external_body] pub fn hash_plutus_data(plutus_data: &PlutusData) -> (r: DataHash) ensures r == data_hash_of(*plutus_data) { unimplemented!() }
